@@ -963,4 +963,128 @@ theorem atof_core {c : FC} {F : Fmt} (h : FCok c F) (sig : Bytes) (hsd : IsDigit
       have := near_le F hmb1 _ _ b (Nat.pos_of_ne_zero (by simp)) hnear
       omega
 
+/-! ## `bhcomp` -/
+
+theorem drop_takeWhile_eq (p : UInt8 → Bool) (l : Bytes) : l.drop (l.takeWhile p).length = l.dropWhile p := by
+  induction l with
+  | nil => rfl
+  | cons a l ih =>
+    by_cases h : p a
+    · simp [List.takeWhile, List.dropWhile, h, ih]
+    · simp [List.takeWhile, List.dropWhile, h]
+
+theorem dropWhile_head (p : UInt8 → Bool) (l : Bytes) (d : UInt8) (r : Bytes) (h : l.dropWhile p = d :: r) :
+    p d = false := by
+  induction l with
+  | nil => simp at h
+  | cons a l ih =>
+    by_cases hp : p a
+    · simp [List.dropWhile, hp] at h; exact ih h
+    · simp [List.dropWhile, hp] at h; rw [← h.1]; simpa using hp
+
+theorem natOfDigits_dropWhile_zero (l : Bytes) : natOfDigits (l.dropWhile (· == 0x30)) = natOfDigits l := by
+  induction l with
+  | nil => rfl
+  | cons a l ih =>
+    by_cases hp : a = 0x30
+    · subst hp
+      have : natOfDigits ((0x30 : UInt8) :: l) = natOfDigits l := by
+        have hd0 : dig (0x30 : UInt8) = 0 := by decide
+        rw [natOfDigits_eq_val, val_cons, hd0, natOfDigits_eq_val]
+      simp [List.dropWhile, ih, this]
+    · have : (a == 0x30) = false := by simpa using hp
+      simp [List.dropWhile, this]
+
+/-- the significant digits `bhcomp` works on: leading zeros of a fraction without integer part are skipped -/
+def sigDigits (integer fraction : Bytes) : Bytes :=
+  if integer.length == 0 then fraction.drop (fraction.takeWhile (· == 0x30)).length else integer ++ fraction
+
+theorem satI32_id' (x : Int) (h1 : -2147483648 ≤ x) (h2 : x ≤ 2147483647) : satI32 x = x := by
+  unfold satI32; split <;> [omega; (split <;> omega)]
+
+/-- **bhcomp_exact.** With `Bigint` as `Nat`: given a finite `b` in whose neighbourhood the decimal value lies, the
+    slow path returns the correctly rounded value — including the truncation to `MAX_DIGITS - 1` digits plus a
+    sticky digit (sound unless every dropped digit is `0`, see `hz`). -/
+theorem bhcomp_eq {c : FC} {F : Fmt} (h : FCok c F) (integer fraction : Bytes) (hdi : IsDigits integer)
+    (hdf : IsDigits fraction) (hhead : ∀ d r, integer = d :: r → d ≠ 0x30)
+    (hpos : 0 < natOfDigits (integer ++ fraction)) (exponent : Int)
+    (hexp1 : -(2 ^ 30 : Int) < exponent) (hexp2 : exponent < 2 ^ 30)
+    (hlen : integer.length + fraction.length < 2 ^ 30) (b : Nat) (hb : b < F.infBits)
+    (hz : c.maxDigits - 1 < (sigDigits integer fraction).length →
+      0 < natOfDigits ((sigDigits integer fraction).drop (c.maxDigits - 1)))
+    (hnear : NearBelow F b (dNum F (natOfDigits (integer ++ fraction)) (exponent - fraction.length))
+      (dDen (exponent - fraction.length))) :
+    bhcomp c b integer fraction exponent =
+      roundDec F (natOfDigits (integer ++ fraction)) (exponent - fraction.length) := by
+  unfold bhcomp
+  by_cases hint : integer = []
+  · -- no integer part
+    subst hint
+    simp only [List.length_nil, beq_self_eq_true, if_true, List.nil_append, Nat.zero_add] at hpos hz hnear ⊢
+    have hsigdef : sigDigits [] fraction = fraction.dropWhile (· == 0x30) := by
+      unfold sigDigits; simp [drop_takeWhile_eq]
+    rw [hsigdef] at hz
+    rw [drop_takeWhile_eq]
+    obtain ⟨start, hstart⟩ : ∃ s, s = (fraction.takeWhile (· == 0x30)).length := ⟨_, rfl⟩
+    rw [← hstart]
+    have hsl : start ≤ fraction.length := by rw [hstart]; exact (List.takeWhile_prefix _).length_le
+    generalize hsig : fraction.dropWhile (· == 0x30) = sig at *
+    have hsiglen : sig.length = fraction.length - start := by
+      rw [← hsig, ← drop_takeWhile_eq, List.length_drop, hstart]
+    have hNsig : natOfDigits sig = natOfDigits fraction := by rw [← hsig]; exact natOfDigits_dropWhile_zero _
+    have hsd : IsDigits sig := by
+      rw [← hsig, ← drop_takeWhile_eq]; exact isDigits_drop hdf _
+    have hne : sig ≠ [] := by
+      intro h0; rw [h0] at hNsig; rw [← hNsig] at hpos; simp [natOfDigits] at hpos
+    have hh : ∀ d r, sig = d :: r → d ≠ 0x30 := by
+      intro d r hdr
+      have := dropWhile_head (· == 0x30) fraction d r (by rw [hsig]; exact hdr)
+      simpa using this
+    have hsci : scientificExponent exponent 0 start = exponent - start - 1 := by
+      unfold scientificExponent intoI32
+      simp only [beq_self_eq_true, if_true]
+      rw [if_neg (by omega), satI32_id' (exponent - (start : Int)) (by omega) (by omega), satI32_id' _ (by omega) (by omega)]
+    rw [hsci, parseMantissa_eq c h.maxd [] sig]
+    simp only [List.nil_append]
+    have hcount : fraction.length - start = sig.length := hsiglen.symm
+    rw [hcount]
+    have hsc : exponent - (start : Int) - 1 + 1 - ((min c.maxDigits sig.length : Nat) : Int) =
+        (exponent - fraction.length) + (sig.length : Int) - ((min c.maxDigits sig.length : Nat) : Int) := by
+      rw [hsiglen]; omega
+    rw [hsc, ← hNsig]
+    rw [← hNsig] at hnear
+    exact atof_core h sig hsd hh hne _ b hb hz hnear
+  · -- integer part present
+    have hil : (integer.length == 0) = false := by
+      cases integer with
+      | nil => exact absurd rfl hint
+      | cons a l => simp
+    have hsigdef : sigDigits integer fraction = integer ++ fraction := by unfold sigDigits; rw [hil]; rfl
+    rw [hsigdef] at hz
+    simp only [hil, Bool.false_eq_true, if_false, Nat.sub_zero]
+    have hilpos : 1 ≤ integer.length := by
+      cases integer with
+      | nil => exact absurd rfl hint
+      | cons a l => simp
+    have hsci : scientificExponent exponent integer.length 0 = exponent + integer.length - 1 := by
+      unfold scientificExponent intoI32
+      rw [hil]
+      simp only [Bool.false_eq_true, if_false]
+      rw [if_neg (by omega), satI32_id' _ (by omega) (by omega)]
+      omega
+    rw [hsci, parseMantissa_eq c h.maxd integer fraction, ← List.length_append]
+    have hsc : exponent + (integer.length : Int) - 1 + 1 - ((min c.maxDigits (integer ++ fraction).length : Nat) : Int) =
+        (exponent - fraction.length) + ((integer ++ fraction).length : Int) - ((min c.maxDigits (integer ++ fraction).length : Nat) : Int) := by
+      rw [List.length_append]; push_cast; omega
+    rw [hsc]
+    have hh : ∀ d r, integer ++ fraction = d :: r → d ≠ 0x30 := by
+      intro d r hdr
+      cases integer with
+      | nil => exact absurd rfl hint
+      | cons a l => simp at hdr; rw [← hdr.1]; exact hhead a l rfl
+    exact atof_core h (integer ++ fraction) (isDigits_append hdi hdf) hh (by
+      intro h0; cases integer with
+      | nil => exact hint rfl
+      | cons a l => simp at h0) _ b hb hz hnear
+
 end SJ.Proofs.LexBh
